@@ -206,7 +206,7 @@ reg("C17",
          "PyramidIO.tile_path. The real workflows (tile-study, tile-allsky, cascade, tile-multi-tan, tile_fits TAN/TOAST with single inputs, multi-TAN / multi-WCS collections and TOAST collections of images of different pixel scales in every input order, `toasty view --tile-only --tiling-method toast`, pipeline process-todos) are run with every tile save observed, and TLC judges "
          "each observed directory against the property's sentences. spec/WtmlHistory.tla is the tile_fits history machine (fresh / reuse / override on one directory); every history TLC "
          "generates is replayed with real tile_fits calls and after each call the returned Builder's imgset/place must equal the parsed index_rel.wtml.",
-    note="Bounded: walk depth 5 (quick) / 8; histories of <= 3 (quick) / 4 calls over 2 / 4 small inputs (TAN full, TAN small, single-image TOAST, multi-image TOAST fine-then-coarse). Placeholder meaning {1}=level {2}=x {3}=y is fixed by the WWT client and "
+    note="Bounded: walk depth 5 (quick) / 8; history machine explored to 4 calls (with a process-lifetime cache component; a cache that override fails to invalidate is refuted); thorough replays all 4-call histories over 4 inputs, quick all 3-call histories over 2 inputs plus the 4-call family fresh(X), reuse, override(Y != X), reuse and a seeded sample; every history runs in one process with out_dir spelled absolute / relative / x/../out in turn. Placeholder meaning {1}=level {2}=x {3}=y is fixed by the WWT client and "
          "assumed. Workflows run serially so the save hook sees every write; HiPS output is not exercised (needs Java + network). TLC and the JSON bridge are trusted.",
     technique="TLA+/TLC theorem checking + state-space walk; TLC-evaluated oracle tables; observations of the real workflows judged by TLC; replay of all TLC histories into the real tile_fits",
     design_ref="DESIGN.md 4.10 (Wtml.tla), 5/C17, 9")
